@@ -126,7 +126,11 @@ class Evaluator:
         if n.id in ("True", "False", "None"):
             return {"True": True, "False": False, "None": None}[n.id]
         if self.resolver is not None:
-            return self.resolver(n.id)
+            try:
+                return self.resolver(n.id)
+            except Unrecognised:
+                if n.id not in _BUILTINS or _BUILTINS[n.id] is None:
+                    raise
         if n.id in _BUILTINS and _BUILTINS[n.id] is not None:
             return _BUILTINS[n.id]
         raise Unrecognised(f"unknown name {n.id}")
